@@ -124,6 +124,15 @@ CHECKS = {
             "(n free variables); index-type limits of Problem.init were probed by hand (numpy raises).",
             "TLC model checking of NucsMech with small stacks + TLA+ trace validation of engine traces with tiny "
             "stacks + a process-level capacity sweep judged by spec/Capacity.tla"),
+    "C20": ("model_checking", "spec/Models.tla holds definition-level predicates of the sixteen shipped combinatorial objects "
+            "(written from the problem statements, not from the models' constraints) and the counts / optima known from "
+            "the literature; every object produced by the real models (real constructors, symmetry breaking on/off, "
+            "bound consistency / shaving, several heuristics, 1..3 processes, the Golomb custom consistency algorithm) is "
+            "validated by TLC, counts and optima are compared with the literature or TLC's own brute force, and the runs "
+            "of one instance are compared with each other.",
+            "Trusted: TLC, spec/Models.tla (validators and literature constants), harness/rec_models.py; sizes within "
+            "reach of the watchdog.",
+            "TLA+ judgement (spec/Models.tla) of every object the real models produce + literature counts/optima"),
 }
 
 PENDING = "check under construction in this session (see DESIGN.md section 6 for the plan); not claimed until its machinery is committed"
